@@ -229,6 +229,7 @@ type dgCase struct {
 	mustMissing bool // generator knowledge: the element carries no Signature element at all
 	noKeyInfo bool // generator knowledge: no Signature element in the document carries a KeyInfo
 	ledgerPartial bool // the generator could not reproduce some genuine signature: the ledger check is skipped
+	expectClass string // fixed cases: the outcome class the real library must show ("" = not fixed)
 	xml    string
 }
 
@@ -907,6 +908,9 @@ func dgRunCase(c *Ctx, cs *CaseSet, k *dgCase) {
 	}
 	if k.noKeyInfo && len(k.store) != 1 && err == nil && res != nil {
 		c.Violate("spec", "dsig:no-keyinfo-ambiguous-store", fmt.Sprintf("a signature without KeyInfo was honoured although the store holds %d certificates (it may be checked against the store only if the store holds exactly one)", len(k.store)), replay)
+	}
+	if k.expectClass != "" && class != k.expectClass {
+		c.Violate("spec", "dsig:fixed-case-outcome", fmt.Sprintf("fixed witness of a Prop_C08 layout theorem: the real library answers %q where the theorem's witness says %q", class, k.expectClass), replay)
 	}
 	if k.mustMissing && err != dsig.ErrMissingSignature {
 		c.Violate("spec", "dsig:unsigned-not-missing", fmt.Sprintf("an element without any Signature element did not yield ErrMissingSignature: %v", err), replay)
